@@ -23,6 +23,8 @@ func runC17(ctx *core.Ctx) {
 	ctx.Rule("DL1", "budget: the duration given to context.WithTimeout is time.Until(Deadline) - 2*g with g = 100ms or a twentieth of the remaining time when that is larger; that context and g are what the TestScript stores as ctxt and gracePeriod; the foreground exec waits with waitOrStop(ts.ctxt, cmd, ts.gracePeriod)", 4)
 	ctx.Rule("DL2", "escalation in waitOrStop's goroutine: every path sends exactly once on the result channel (none would hang the caller, two would hang the goroutine); the interrupt is sent only after the context is done; the kill only after the kill-delay timer fired and only when the delay is positive; the caller calls Cmd.Wait and then receives exactly once", 5)
 	ctx.Rule("DL5", "an explicit deadline wins: the testing.T entry point overwrites Params.Deadline only on a path where Params.Deadline.IsZero() was true and the test binary reported a deadline; otherwise the user's deadline would be replaced by the (much later) binary timeout and blocked commands would not be stopped at it", 1)
+	ctx.Rule("DL7", "commands are created with exec.Command, never exec.CommandContext: the watcher (waitOrStop) alone enforces the deadline, with its grace periods", 1)
+	ctx.Rule("DL8", "every goroutine that waits for a started command does so through waitOrStop (which watches the script's context), never through a bare Cmd.Wait", 1)
 	ctx.Rule("DL6", "no child left behind at the deadline: in run's clean-up every wait for background commands is dominated by the loop that interrupts them all (C04.I6); the watcher's SIGQUIT is not escalated for background commands, so a process that ignores it is stopped only by this interrupt", 1)
 	ctx.Rule("DL4", "the context is cancelled by the subtest whose atomic decrement of the reference count reaches zero", 1)
 	runT := ctx.Need("DL1", "testscript", "RunT")
@@ -531,6 +533,44 @@ func runC17(ctx *core.Ctx) {
 			}
 		}
 		ctx.Check(why == "", "DL4", "testscript.RunT#refcount", runT.Pos(), "the reference count is set once to the number of scripts before any subtest runs and is only ever decremented by one %s", why)
+	}
+	// ---- DL7 / DL8: the watcher is the only thing that enforces the deadline on a command
+	{
+		n7, n8 := 0, 0
+		for _, f := range tsFuncs(p) {
+			g := graph(p, f)
+			for _, c := range g.Calls("os/exec.CommandContext") {
+				n7++
+				ctx.Bad("DL7", shortFn(f)+"#command-context"+itoa(n7), c.Pos(), "a command is bound to a context by os/exec itself: at expiry os/exec kills it at once, at the very moment the watcher sends the interrupt - the grace period in which an interrupted command prints and exits is gone")
+			}
+			g.Instrs(func(i ssa.Instruction) {
+				gi, ok := i.(*ssa.Go)
+				if !ok {
+					return
+				}
+				var fn *ssa.Function
+				switch x := gi.Call.Value.(type) {
+				case *ssa.MakeClosure:
+					fn, _ = x.Fn.(*ssa.Function)
+				case *ssa.Function:
+					fn = x
+				}
+				if fn == nil || fn.Blocks == nil {
+					return
+				}
+				fg := graph(p, fn)
+				if len(fg.Calls("(*os/exec.Cmd).Wait")) > 0 {
+					n8++
+					ctx.Bad("DL8", shortFn(f)+"#bare-wait"+itoa(n8), gi.Pos(), "a goroutine waits for a command with Cmd.Wait directly: that command is not watched, the deadline never interrupts it")
+				}
+			})
+		}
+		if n7 == 0 {
+			ctx.OK("DL7", "testscript#no-command-context", token.NoPos, "no command is created with exec.CommandContext")
+		}
+		if n8 == 0 {
+			ctx.OK("DL8", "testscript#no-bare-wait", token.NoPos, "no goroutine waits for a command other than through waitOrStop")
+		}
 	}
 	// ---- DL6: the end-of-run clean-up interrupts before it waits, whatever the context says
 	if run := p.Func("testscript", "(*TestScript).run"); run != nil {
